@@ -152,7 +152,7 @@ PROFILES["conf_full"] = conf_full
 ALLCMDS = ["incr", "decr", "set_np", "restart", "reload", "kill", "signal", "stop", "start", "status", "list",
            "numprocesses"]
 PROFILES.update({
-    "count": {"singleton": True, "cmds": ["incr", "decr", "set_np", "restart", "reload", "kill"], "steps": 30},
+    "count": {"singleton": True, "cmds": ["incr", "decr", "set_np", "set_multi", "set_multi", "restart", "reload", "kill"], "steps": 30},
     "stop": {"cmds": ["stop", "stop", "rm", "kill", "restart", "start", "incr", "decr", "set_np", "set_opt", "set_opt", "status"], "stubborn": 0.5,
              "kcall_deaths": 0.6, "hooks": ["after_spawn", "before_stop", "after_stop"], "norespawn": True},
     "term": {"max_age": 0.3, "killover": 0.6, "Gs": [0.0, 0.2, 0.3, 0.5, 0.8], "stop_children": True, "stop_signal": True, "fork": 0.15, "stubborn": 0.5,
